@@ -6,6 +6,7 @@ import (
 	"fmt"
 	"log"
 	"math/rand"
+	"sync"
 
 	"github.com/lugu/qiloop/meta/signature"
 	"github.com/lugu/qiloop/type/conversion"
@@ -95,31 +96,48 @@ func (p proxy) SubscribeID(action uint32) (func(), chan []byte, error) {
 			return nil, nil, fmt.Errorf("unknown signal: %d", action)
 		}
 	}
+	// the subscribers of a signal on one connection share a single
+	// registration: its bookkeeping and the remote calls which create
+	// and remove it form one critical section, so that a subscriber is
+	// never acknowledged before the registration it relies on exists,
+	// and a registration is never removed while somebody counts on it.
+	key := fmt.Sprintf("%d.%d.%d", p.service, p.object, action)
+	var lock sync.Locker = noLock{}
+	if l, ok := p.client.(interface {
+		signalLock(string) *sync.Mutex
+	}); ok {
+		lock = l.signalLock(key)
+	}
+	lock.Lock()
+	defer lock.Unlock()
+
 	cancel, bytes, err := p.client.Subscribe(p.service, p.object, action)
 	if err != nil {
 		return nil, nil, err
 
 	}
-	subscriptions := p.client.State(fmt.Sprintf("%d.%d.%d", p.service, p.object, action), 1)
+	subscriptions := p.client.State(key, 1)
 	if subscriptions == 1 {
 		handler := rand.Int()
-		p.client.State(fmt.Sprintf("%d.%d.%d.handler", p.service, p.object, action), handler)
+		p.client.State(key+".handler", handler)
 		obj := proxyObject{p}
 		_, err := obj.RegisterEvent(p.object, action, uint64(handler))
 		if err != nil {
 			// nothing was registered: the next subscriber is
 			// the first one again.
-			p.client.State(fmt.Sprintf("%d.%d.%d.handler", p.service, p.object, action), -handler)
-			p.client.State(fmt.Sprintf("%d.%d.%d", p.service, p.object, action), -1)
+			p.client.State(key+".handler", -handler)
+			p.client.State(key, -1)
 			cancel()
 			return nil, nil, err
 		}
 	}
 	return func() {
-		subscriptions := p.client.State(fmt.Sprintf("%d.%d.%d", p.service, p.object, action), -1)
+		lock.Lock()
+		defer lock.Unlock()
+		subscriptions := p.client.State(key, -1)
 		if subscriptions == 0 {
-			handler := p.client.State(fmt.Sprintf("%d.%d.%d.handler", p.service, p.object, action), 0)
-			p.client.State(fmt.Sprintf("%d.%d.%d.handler", p.service, p.object, action), -handler)
+			handler := p.client.State(key+".handler", 0)
+			p.client.State(key+".handler", -handler)
 			// the registration must be removed even if the
 			// context the subscription was made under is done.
 			obj := proxyObject{p.WithContext(context.Background())}
@@ -131,6 +149,12 @@ func (p proxy) SubscribeID(action uint32) (func(), chan []byte, error) {
 		cancel()
 	}, bytes, nil
 }
+
+// noLock is the lock of the clients which do not provide one.
+type noLock struct{}
+
+func (noLock) Lock()   {}
+func (noLock) Unlock() {}
 
 // ServiceID returns the service identifier.
 func (p proxy) ServiceID() uint32 {
